@@ -419,16 +419,30 @@ def check_likelihood(ctx, cname, data_attr, stochastic):
     ptxt = [util.stmt_key(s).replace(' ', '') for s in post]
     if 'error=error**(1.0/self.norm_order)' not in ptxt and 'error=error**(1/self.norm_order)' not in ptxt:
         problems.append('the sum is not raised to 1/p: %s' % ptxt[:2])
-    if stochastic:
-        if 'error=-1.0*error/(1.0*self.N_simulations)' not in ptxt:
-            problems.append('the stochastic cost is not -(sum)^(1/p)/N_simulations')
-        tail = [s for s in post if isinstance(s, ast.If)]
-        ok = tail and src(tail[-1].test).replace(' ', '') == 'np.isnan(error)' and util.stmt_key(tail[-1].body[0]).replace(' ', '') == 'return-np.inf' and \
-            util.stmt_key(tail[-1].orelse[0]).replace(' ', '') == 'returnerror'
-    else:
-        tail = [s for s in post if isinstance(s, ast.If)]
-        ok = tail and src(tail[-1].test).replace(' ', '') == 'np.isnan(error)' and util.stmt_key(tail[-1].body[0]).replace(' ', '') == 'return-np.inf' and \
-            util.stmt_key(tail[-1].orelse[0]).replace(' ', '') == 'return-error'
+    if stochastic and 'error=-1.0*error/(1.0*self.N_simulations)' not in ptxt:
+        problems.append('the stochastic cost is not -(sum)^(1/p)/N_simulations')
+    # what is returned: -inf if the cost is NaN, otherwise minus the cost (the stochastic cost already carries its sign) - on every path
+    want_ret = 'error' if stochastic else '-error'
+    ok = True
+    rp = paths.Enumerator().run(post, paths.State())
+    ctx.paths += len(rp)
+    n_nan = n_val = 0
+    for p_ in rp:
+        if p_.exit != 'return':
+            ok = False
+            continue
+        tests = {util.canon_test(e.node).replace(' ', ''): e.info for e in p_.events if e.kind == 'test'}
+        nan = tests.get('np.isnan(error)')
+        val = src(p_.events[-1].node.value).replace(' ', '') if p_.events[-1].node.value is not None else None
+        if nan is True:
+            n_nan += 1
+            ok = ok and val in ('-np.inf', '-numpy.inf', "float('-inf')")
+        elif nan is False:
+            n_val += 1
+            ok = ok and val == want_ret
+        else:
+            ok = False
+    ok = ok and n_nan >= 1 and n_val >= 1
     if not ok:
         problems.append('the result is not -cost with NaN mapped to -inf')
     init = [util.stmt_key(s).replace(' ', '') for s in f.body[:f.body.index(nl)]]
@@ -480,11 +494,57 @@ def check_likelihood(ctx, cname, data_attr, stochastic):
 
 def check_init_species(ctx):
     f = ctx.fn('inference:ModelLikelihood.set_init_species')
-    txt = [util.stmt_key(s).replace(' ', '') for s in ast.walk(f) if isinstance(s, ast.stmt)]
-    ok = 'j=species2index[s]' in txt and 'self.initial_states[i,j]=sds[i][s]' in txt and 'self.initial_states[i,j]=self.default_species[j]' in txt \
-        and 'species2index=self.m.get_species2index()' in txt
+    k_ = lambda t: t.replace(' ', '')
+    sds = f.args.args[1].arg
+    problems = []
+    outer = [s_ for s_ in f.body if isinstance(s_, ast.For) and k_(src(s_.iter)) == 'range(self.Nx0)']
+    fdefs = {n_: v_ for n_, v_ in util.single_defs(f).items() if v_ is not None}
+    inner = []
+    if len(outer) == 1:
+        i_ = src(outer[0].target)
+        inner = [s_ for s_ in outer[0].body if isinstance(s_, ast.For)
+                 and k_(src(util.resolve_alias(s_.iter, fdefs))) in ('self.m.get_species2index()',)]
+        if [x for x in outer[0].body if x not in inner and not isinstance(x, ast.Pass)]:
+            problems.append('the trajectory loop does more than fill one row per species')
+    if len(outer) != 1 or len(inner) != 1:
+        problems.append('no loop over every trajectory and, inside it, over every species of the model')
+    else:
+        s_ = src(inner[0].target)
+        dict_name = src(inner[0].iter)
+        ps = paths.Enumerator().run(inner[0].body, paths.State())
+        ctx.paths += len(ps)
+        for p_ in ps:
+            stores = [e.node for e in p_.stmts() if isinstance(e.node, (ast.Assign, ast.AugAssign)) and
+                      isinstance((e.node.targets[0] if isinstance(e.node, ast.Assign) else e.node.target), ast.Subscript) and
+                      src((e.node.targets[0] if isinstance(e.node, ast.Assign) else e.node.target).value) == 'self.initial_states']
+            tests = {k_(util.canon_test(e.node)): e.info for e in p_.events if e.kind == 'test'}
+            named = tests.get('%sin%s[%s]' % (s_, sds, i_))
+            if named is None and '%snotin%s[%s]' % (s_, sds, i_) in tests:
+                named = not tests['%snotin%s[%s]' % (s_, sds, i_)]
+            if p_.exit != 'fall' or len(stores) != 1 or not isinstance(stores[0], ast.Assign) or named is None or len(tests) != 1:
+                problems.append('a species is not given exactly one value decided by whether this trajectory names it [%s]' % paths.describe(p_, 4))
+                continue
+            tgt = stores[0].targets[0]
+            idx = [src(x) for x in tgt.slice.elts] if isinstance(tgt.slice, ast.Tuple) else [src(tgt.slice)]
+            ldefs = {}
+            for e in p_.stmts():
+                if isinstance(e.node, ast.Assign) and isinstance(e.node.targets[0], ast.Name):
+                    ldefs[e.node.targets[0].id] = e.node.value
+            col = k_(src(util.inline(ast.parse(idx[1], mode='eval').body, ldefs))) if len(idx) == 2 else None
+            if len(idx) != 2 or idx[0] != i_ or col != '%s[%s]' % (dict_name, s_):
+                problems.append('the value is stored at [%s], expected [trajectory, index of the species by name]' % ', '.join(idx))
+                continue
+            val = k_(src(util.inline(stores[0].value, ldefs)))
+            want = '%s[%s][%s]' % (sds, i_, s_) if named else 'self.default_species[%s[%s]]' % (dict_name, s_)
+            if val != want:
+                problems.append('a species the trajectory %s gets %s, expected %s' % ('names' if named else 'does not name', val, want))
+    first = [k_(util.stmt_key(x)) for x in f.body[:1]]
+    if not first or not first[0].startswith('self.initial_states=np.zeros((self.Nx0,'):
+        problems.append('the table of initial states is not allocated afresh (one row per trajectory)')
+    ok = not problems
     ctx.ob('R15.4-trajectory-setup', 'set_init_species', ok, ctx.loc('inference', f),
-           'initial conditions are matched to species by name; unspecified species take the model default at the same index', '')
+           'initial conditions are matched to species by name; unspecified species take the model default at the same index, for every '
+           'trajectory on its own', '; '.join(sorted(set(problems))[:2]))
     f = ctx.fn('inference:ModelLikelihood.set_init_params')
     txt = [util.stmt_key(s).replace(' ', '') for s in f.body]
     a = f.args.args[1].arg
